@@ -499,3 +499,10 @@ PROPS['C11']['seeded_extra'] = _seeded_solve(1, 1, must_contain='5')
 
 PROPS['C02']['bounds_text'] += '; side B: every DAG over <=3 function providers x flags, kinds / packages / frontend / random (seeded) families executed under all fault schedules'
 PROPS['C10']['bounds_text'] += '; side B: grouping, kinds, packages, frontend and random families must be accepted'
+
+# C07 through the real front end (added after seeded change C07r3: a set that only re-exports another set and adds a
+# binding skipped the cycle check): the reject family holds cycles through every edge kind in sets of every shape;
+# a wire run that does not terminate within the limits is a C07 violation (lib/sideb.run_wire)
+PROPS['C07']['quick'] = PROPS['C07']['quick'] + [sideb(['reject'])]
+PROPS['C07']['thorough'] = PROPS['C07']['thorough'] + [sideb(['reject', 'random_reject'])]
+PROPS['C07']['bounds_text'] += '; side B reject family: cycles closed by a function, struct, field provider or a binding, in direct, nested, inline and re-exporting sets, with the result on and off the cycle, through the real front end; the wire binary runs under a 900 s / 12 GB limit (60 s / 3 GB per package when searching for the culprit) and being stopped by it is a violation'
